@@ -60,6 +60,26 @@ def tla_record(d):
 TAG = format(os.getpid() % 46656, "x")      # keeps the /dev/shm names of concurrent check runs apart
 
 
+_strace_ok = None
+
+
+def strace_works():
+    """strace present AND allowed to trace (ptrace may be forbidden in a sandbox)."""
+    global _strace_ok
+    if _strace_ok is None:
+        import subprocess
+        _strace_ok = False
+        if shutil.which("strace"):
+            try:
+                r = subprocess.run(["strace", "-f", "-qq", "-o", "/dev/null", "-e", "trace=write", "-e",
+                                    "inject=write:delay_enter=1", "/bin/true"], stdout=subprocess.PIPE,
+                                   stderr=subprocess.PIPE, timeout=60)
+                _strace_ok = r.returncode == 0
+            except Exception:
+                _strace_ok = False
+    return _strace_ok
+
+
 class DriverAbort(Exception):
     """The driver process died while executing the code under test (panic / abort / signal): data."""
 
@@ -184,7 +204,7 @@ def extract_step_order(ctx, pat):
     """Parameter extraction (DESIGN.md 3.3): the order of the resource-creating / removing system calls of
     one create, one open and the two drops of the current build, read with strace and mapped to the
     abstract steps of ServiceLifecycle.tla by path suffix."""
-    if shutil.which("strace") is None:
+    if not strace_works():
         return None
     log = ctx.path("order", f"steps-{pat}.strace")
     exe = os.path.join(vp.TARGET_BIN, "drv-service")
@@ -455,8 +475,8 @@ def part_conc(ctx, procs, slow=False):
     creator) runs in slow motion - strace injects a delay before and after each of its file / shm
     system calls, so that it is paused after every step of the protocol while its peers keep opening."""
     mode = "slow" if slow else ("procs" if procs else "conc")
-    if slow and shutil.which("strace") is None:
-        return [("note", "strace not available: slow-motion multi-process histories skipped")]
+    if slow and not strace_works():
+        return [("note", "strace not available / not permitted: slow-motion multi-process histories skipped")]
     if ctx.quick:
         runs, iters, threads = (3, 90, "3,2,4") if not procs else ((2, 90, "3,2") if not slow else (1, 300, "3"))
     else:
@@ -641,7 +661,7 @@ def run(ctx):
         else:
             jobs.append(ex.submit(part_lifecycle, ctx, "LC_2x3", 2, 3, 1, False, True, True))
             jobs.append(ex.submit(part_lifecycle, ctx, "LC_2x3_res", 2, 3, 2, True, False, False))
-            jobs.append(ex.submit(part_lifecycle, ctx, "LC_3x2", 3, 2, 1, False, True, False))
+            jobs.append(ex.submit(part_lifecycle, ctx, "LC_3x2", 3, 2, 0, False, False, False))
             jobs.append(ex.submit(part_must_fail, ctx, "MF_unlock_before_write", {"wbu": False}))
             jobs.append(ex.submit(part_must_fail, ctx, "MF_no_lock_on_last", {"lol": False}))
             jobs.append(ex.submit(part_must_fail, ctx, "MF_register_after_finalise", {"rii": False}))
